@@ -5,6 +5,31 @@ import (
 	"time"
 )
 
+// nestDepth: number of pointer/slice/array/map constructors on the deepest path.
+func nestDepth(t *Ty) int {
+	switch t.K {
+	case "ptr", "slice", "array":
+		return 1 + nestDepth(t.Elem)
+	case "map":
+		a, b := nestDepth(t.Key), nestDepth(t.Elem)
+		if a > b {
+			return 1 + a
+		}
+		return 1 + b
+	case "named":
+		return nestDepth(t.Under)
+	case "struct":
+		m := 0
+		for _, f := range t.Fields {
+			if d := nestDepth(f.T); d > m {
+				m = d
+			}
+		}
+		return m
+	}
+	return 0
+}
+
 // directMapField: a named struct with a map field whose key and value are basic types.
 func directMapField(n *Ty) bool {
 	if n.Under == nil || n.Under.K != "struct" {
@@ -58,6 +83,11 @@ func propSpecs() map[string]*PropSpec {
 		},
 		Outside: []string{"NaN", "cyclic values", "reflect/unsafe path", "values larger than the bounds"}})
 	add(&PropSpec{ID: "C04", Title: "Derived Hash respects Equal", Gen: genC04, AbstractMul: true,
+		SkipKind: func(in Inst, kind, tier string) bool {
+			// the two-independent-values form over nested containers of string-bearing structs needs minutes;
+			// those shapes are covered by premise + rebuild (shared leaves) instead
+			return kind == "direct" && in.Tags["string"] && nestDepth(in.T) >= 3
+		},
 		Filter: func(in Inst, tier string) bool {
 			if in.Tags["userEqual"] {
 				return false // a user Equal that ignores a field cannot be matched by a derived Hash
@@ -105,5 +135,15 @@ func propSpecs() map[string]*PropSpec {
 		Outside: []string{"NaN", "lists longer than the bound", "sort.Slice beyond 12 elements (different algorithm)"}})
 	add(&PropSpec{ID: "C14", Title: "Set and list helpers", Gen: elemGen(genC14Elem), Corpus: elemInsts, PkgSize: 2,
 		Outside: []string{"NaN", "lists longer than the bound"}})
+	caseSpec := func(id, title string, f func(tier string) []CaseInst, outside []string) {
+		add(&PropSpec{ID: id, Title: title, PkgSize: 1, Outside: outside,
+			Corpus: func(tier string, seed int64) []Inst { return caseInsts(f(tier))(tier, seed) },
+			Gen:    func(g *Gen, in Inst, tier string) []HarnessSrc { return caseGen(f(tier))(g, in, tier) }})
+	}
+	caseSpec("C15", "Curry, Uncurry, Flip, Apply, Tuple only re-plumb arguments", c15CaseInsts, []string{"variadic signatures", "signatures outside the listed corpus"})
+	caseSpec("C16", "Error-propagating helpers stop at, and return, the first error", c16CaseInsts, []string{"chains longer than 4 stages", "interface-typed results"})
+	caseSpec("C17", "Fmap and Join over slices and strings", c17CaseInsts, []string{"strings longer than 4 bytes", "lists longer than the bound"})
+	defer func() { m["C18"].AbstractMul = true; m["C14"].AbstractMul = true }()
+	caseSpec("C18", "Mem is observationally the original function, evaluated once per argument", c18CaseInsts, []string{"call sequences longer than 3", "float arguments (== identifies +0/-0 which f may distinguish)"})
 	return m
 }
